@@ -112,6 +112,31 @@ def Live.step (l : Live) : Op → Live
 
 def liveAfter (ops : List Op) : Live := ops.foldl Live.step {}
 
+/-! ### defining genes when annotations change at any time: decided each time gene and protocluster meet -/
+
+/-- does gene `g` (with the annotations it carries now) define protocluster `d`? -/
+def specDefines (g : Gene) (d : AreaT) : Bool :=
+  d.kind == .proto && specContained g.loc d.loc && specContained g.loc d.core && g.cores.contains d.product
+
+/-- the (protocluster, gene) pairs decided when the genes `gs` meet the collection trees `as` -/
+def meetPairs (gs : List Gene) (as : List AreaT) : List (Nat × Nat) :=
+  as.flatMap fun a => (nodes a).flatMap fun d => (gs.filter fun g => specContained g.loc a.loc && specDefines g d).map fun g => (d.id, g.id)
+
+/-- one call: a new gene meets everything in the record, a new collection (or re-created region) meets every gene —
+    each time with the annotations the gene carries at that moment; nothing is ever taken back -/
+def defsStep (acc : Live × List (Nat × Nat)) (op : Op) : Live × List (Nat × Nat) :=
+  let (l, d) := acc
+  let l' := l.step op
+  match op with
+  | .cds g => (l', d ++ meetPairs [g] l.areas)
+  | .area a => (l', d ++ meetPairs l.genes [a])
+  | .clearSubs new | .clearCands new | .clearProtos new =>
+    (l', if l.regions.isEmpty then d else d ++ meetPairs l.genes new)
+  | _ => (l', d)
+
+/-- every (protocluster id, gene id) pair a history makes defining -/
+def specDefsAfter (ops : List Op) : List (Nat × Nat) := (ops.foldl defsStep ({}, [])).2
+
 /-- the collections one call hands to the record (an `add_<area>` argument, the regions a clearing call
     re-creates) -/
 def opAreas : Op → List AreaT
